@@ -383,6 +383,66 @@ func (n *Node) KnownTx(h wire.Hash) *wire.MsgTx {
 type Server struct{ N *Node }
 
 func (s *Server) Blockchain() *blockchain.Blockchain { return sharedChain }
-func (s *Server) ChainDB() database.Db                { return s.N.db }
+func (s *Server) ChainDB() database.Db                { return &lockedDb{Db: s.N.db, n: s.N} }
 func (s *Server) TxMemPool() *blockchain.TxPool       { return sharedPool }
 func (s *Server) SyncManager() *netsync.SyncManager   { return sharedSync }
+
+// lockedDb is the node's chain database as the wallet sees it. In the real node the blockchain
+// serialises block connection against readers; the simulator calls the chain database directly from
+// the test goroutine, so when the wallet's own goroutines run (live mode) their reads are serialised
+// against Attach / DetachTip here. Only the calls the wallet makes are wrapped.
+type lockedDb struct {
+	database.Db
+	n *Node
+}
+
+func (l *lockedDb) FetchBlockBySha(sha *wire.Hash) (*massutil.Block, error) {
+	l.n.mu.Lock()
+	defer l.n.mu.Unlock()
+	return l.Db.FetchBlockBySha(sha)
+}
+func (l *lockedDb) FetchBlockHeaderBySha(sha *wire.Hash) (*wire.BlockHeader, error) {
+	l.n.mu.Lock()
+	defer l.n.mu.Unlock()
+	return l.Db.FetchBlockHeaderBySha(sha)
+}
+func (l *lockedDb) FetchBlockShaByHeight(h uint64) (*wire.Hash, error) {
+	l.n.mu.Lock()
+	defer l.n.mu.Unlock()
+	return l.Db.FetchBlockShaByHeight(h)
+}
+func (l *lockedDb) FetchBlockLocByHeight(h uint64) (*database.BlockLoc, error) {
+	l.n.mu.Lock()
+	defer l.n.mu.Unlock()
+	return l.Db.FetchBlockLocByHeight(h)
+}
+func (l *lockedDb) FetchTxByLoc(h uint64, off int, ln int) (*wire.MsgTx, error) {
+	l.n.mu.Lock()
+	defer l.n.mu.Unlock()
+	return l.Db.FetchTxByLoc(h, off, ln)
+}
+func (l *lockedDb) FetchTxByFileLoc(b *database.BlockLoc, tl *wire.TxLoc) (*wire.MsgTx, error) {
+	l.n.mu.Lock()
+	defer l.n.mu.Unlock()
+	return l.Db.FetchTxByFileLoc(b, tl)
+}
+func (l *lockedDb) FetchTxBySha(sha *wire.Hash) ([]*database.TxReply, error) {
+	l.n.mu.Lock()
+	defer l.n.mu.Unlock()
+	return l.Db.FetchTxBySha(sha)
+}
+func (l *lockedDb) NewestSha() (*wire.Hash, uint64, error) {
+	l.n.mu.Lock()
+	defer l.n.mu.Unlock()
+	return l.Db.NewestSha()
+}
+func (l *lockedDb) FetchScriptHashRelatedTx(hs [][]byte, a, b uint64) (map[uint64][]*wire.TxLoc, error) {
+	l.n.mu.Lock()
+	defer l.n.mu.Unlock()
+	return l.Db.FetchScriptHashRelatedTx(hs, a, b)
+}
+func (l *lockedDb) CheckScriptHashUsed(h []byte) (bool, error) {
+	l.n.mu.Lock()
+	defer l.n.mu.Unlock()
+	return l.Db.CheckScriptHashUsed(h)
+}
